@@ -7,7 +7,11 @@ use crate::{AnyStoredVec, Error, Result, Stamp, VecIndex, VecValue, Version};
 
 /// Maximum in-memory cache size before forcing a flush (1 GiB).
 /// Prevents unbounded memory growth when pushing many values without flushing.
+#[cfg(not(anydb_verif))]
 pub(crate) const MAX_CACHE_SIZE: usize = 1024 * 1024 * 1024;
+#[cfg(anydb_verif)]
+pub(crate) const MAX_CACHE_SIZE: rawdb::verif::Threshold<{ rawdb::verif::MAX_CACHE_SIZE_CELL }> =
+    rawdb::verif::Threshold;
 
 /// Typed interface for stored vectors (push, truncate, rollback).
 ///
